@@ -355,6 +355,17 @@ class Fn:
         self._index()
         return self._byid.get(nid)
 
+    def decl(self, dloc):
+        """the VarDecl node declared at dloc (locals only), or None."""
+        d = getattr(self, '_decls', None)
+        if d is None:
+            d = {}
+            for n in self.nodes():
+                if n.get('k') == 'VarDecl' and n.get('loc'):
+                    d[n['loc']] = n
+            self._decls = d
+        return d.get(dloc)
+
     def calls(self, callee_name=None, callee=None):
         for n in self.nodes():
             if 'callee' in n:
